@@ -246,6 +246,21 @@ impl Interp {
                 let Some(ms) = kv(t, "ms").and_then(|x| x.parse().ok()) else { return "bad-op".into() };
                 w.udp_flood(ms)
             }
+            ["e2e.udphol", name, ..] => {
+                let Some(Obj::World(w)) = self.objs.get(*name) else { return "bad-op".into() };
+                let Some(ms) = kv(t, "hold").and_then(|x| x.parse().ok()) else { return "bad-op".into() };
+                w.udp_head_of_line(ms)
+            }
+            ["e2e.udplru", name, ..] => {
+                let Some(Obj::World(w)) = self.objs.get(*name) else { return "bad-op".into() };
+                let Some(n) = kv(t, "n").and_then(|x| x.parse().ok()) else { return "bad-op".into() };
+                w.udp_receive_only_survives(n)
+            }
+            ["e2e.linkreset", name, ..] => {
+                let Some(Obj::World(w)) = self.objs.get(*name) else { return "bad-op".into() };
+                let Some(n) = kv(t, "size").and_then(|x| x.parse().ok()) else { return "bad-op".into() };
+                w.link_reset_behind_answer(n)
+            }
             ["e2e.cut", name] => {
                 let Some(Obj::World(w)) = self.objs.get(*name) else { return "bad-op".into() };
                 w.cut()
